@@ -155,6 +155,7 @@ class Core(Monitor):
         self.final_time = None
         self.writes = 0
         self.write_sha = hashlib.sha256()
+        self.write_log = []
 
     def on_activator_built(self, activator, args, kwargs, info):
         self.ctx.activator_object = activator
@@ -214,7 +215,8 @@ class Core(Monitor):
         self.sha.update(line.encode())
         self.sha.update(b"\n")
         if self.keep_log:
-            self.log.append(line)
+            self.log.append((ctx.handler_index.get(handler, -1), handler.__class__.__name__,
+                             (now.quotient, now.remainder) if now is not None else None, tuple(records)))
         self.kinds[kind] += 1
         active = tuple(sorted(r[0] for r in records if r[2] is not None))
         changed = active != self._prev_active
@@ -232,10 +234,15 @@ class Core(Monitor):
     def on_write(self, io_handler, name, args):
         self.writes += 1
         self.write_sha.update(name.encode())
+        one = hashlib.sha256()
         if args and isinstance(args[0], list):
             for unit in walk_units(args[0]):
-                self.write_sha.update(repr(tuple(
-                    (fhex(x) if isinstance(x, float) else x) for x in _flatten(unit_record(unit)))).encode())
+                data = repr(tuple((fhex(x) if isinstance(x, float) else x)
+                                  for x in _flatten(unit_record(unit)))).encode()
+                self.write_sha.update(data)
+                one.update(data)
+        if self.keep_log:
+            self.write_log.append((self.ctx.step, name, one.hexdigest()))
 
     def digest(self):
         h = hashlib.sha256()
@@ -344,6 +351,16 @@ def run_scenario(scn, monitor_factories, package_dir, keep_log=False, crash_prop
                 result.status = "invalid"
                 result.error = repr(exc)
                 return result
+            except HarnessError:
+                raise
+            except Exception as exc:
+                # a configuration the factory cannot build (e.g. a cell system without any far cell): discarded and
+                # counted, never a verdict -- unless the failure lies in harness code
+                if _harness_raised(exc):
+                    raise
+                result.status = "invalid"
+                result.error = "".join(traceback.format_exception(type(exc), exc, exc.__traceback__))[-1500:]
+                return result
             ctx.mediator_built = mediator
             if before_run is not None:
                 before_run(ctx, mediator)
@@ -394,6 +411,7 @@ def run_scenario(scn, monitor_factories, package_dir, keep_log=False, crash_prop
                                  if core.final_time is not None else None)
             if keep_log:
                 result.log = core.log
+                result.write_log = core.write_log
         result.draws = FACADE.count
         if keep_dir:
             result.out_dir = out_dir
